@@ -9,8 +9,11 @@ VARIANTS = {
 _BF = ["blowfish/conf.rs", "blowfish/expand.rs"]
 _BC = ["blowfish/conf.rs", "blowfish/expand.rs", "blowfish/bcrypt.rs"]
 PLAN = {
-    "C09": [("blowfish", _BF), ("cast5", ["cast5/conf.rs"]), ("idea", ["idea/conf.rs"]), ("rc2", ["rc2/conf.rs"]), ("xtea", ["xtea/conf.rs"])],
+    "C09": [("blowfish", _BF), ("cast5", ["cast5/conf.rs"]), ("idea", ["idea/conf.rs", "idea/inv16.rs"]), ("rc2", ["rc2/conf.rs"]), ("xtea", ["xtea/conf.rs"])],
     "C14": [("blowfish+bcrypt", _BC)],
-    "C01": [("blowfish", _BF), ("cast5", ["cast5/conf.rs"]), ("idea", ["idea/rt.rs"]), ("rc2", ["rc2/conf.rs", "rc2/rt.rs"]), ("xtea", ["xtea/conf.rs"])],
-    "C20": [("blowfish", _BF), ("blowfish+bcrypt", _BC), ("cast5", ["cast5/conf.rs"]), ("idea", ["idea/conf.rs"]), ("rc2", ["rc2/conf.rs", "rc2/rt.rs"]), ("xtea", ["xtea/conf.rs"])],
+    "C01": [("blowfish", _BF), ("cast5", ["cast5/conf.rs"]), ("idea", ["idea/conf.rs", "idea/inv16.rs", "idea/rt.rs"]), ("rc2", ["rc2/conf.rs", "rc2/rt.rs"]), ("xtea", ["xtea/conf.rs"])],
+    "C20": [("blowfish", _BF), ("blowfish+bcrypt", _BC), ("cast5", ["cast5/conf.rs"]), ("idea", ["idea/conf.rs", "idea/inv16.rs"]), ("rc2", ["rc2/conf.rs", "rc2/rt.rs"]), ("xtea", ["xtea/conf.rs"])],
+}
+ASSUMPTIONS = {
+    "C01": ["IDEA round trip: the cancellation laws mul(mul(x,k), mul_inv(k)) == x == mul(mul(x, mul_inv(k)), k) imposed on the uninterpreted (mul, mul_inv) pair follow from the solver-decided leaf lemmas idea_leaf_mul (mul is multiplication mod 65537 with 0 = 2^16) and idea_leaf_inv (mul(k, mul_inv(k)) == 1) by associativity/commutativity of multiplication modulo the prime 65537 (arithmetic, not decided by the solver)"],
 }
